@@ -2032,7 +2032,7 @@ def SIS_homogeneous_pairwise(S0, I0, SI0, SS0, n, tau, gamma, tmin = 0,
     '''
     N = S0+I0
 
-    if SS0 + SI0*2>n*N:
+    if SS0 + SI0*2>n*N*(1+1e-9):
         raise EoN.EoNError('Initial condition has more SS, SI, and IS edges than allowed')
 
     X0 = np.array([S0, SI0, SS0])
